@@ -215,21 +215,35 @@ def rule_restore(facts, cg):
                         prev.setdefault(s, b)
                         st.append(s)
                 bad = []
-                for e in escapes:
-                    # walk back to find the `?` (from_residual) whose residual comes from which call
-                    path, cur = [], e
-                    while cur in prev and cur != ob and len(path) < 400:
-                        path.append(cur)
-                        cur = prev[cur]
-                    culprit = None
-                    for b in path:
-                        tt = fn.term(b)
-                        if tt[0] == "call" and str(tt[1].get("def", "")).endswith("FromResidual::from_residual"):
-                            from .mir import Call
-                            c = Call(fn, b, tt)
-                            o = fn.origin(c.args[0], through_calls=("::branch",), at=b)
-                            if o[0] == "call":
-                                culprit = o[1]
+                # every `?` (from_residual) inside the unrestored region that can still reach an escaping exit is examined on its
+                # own (several error edges usually share one return block), plus a direct path that passes no `?` at all
+                region = seen
+                can_escape, st2 = set(), list(escapes)
+                rprev = {}
+                for x in region:
+                    for s in fn.succ[x]:
+                        rprev.setdefault(s, set()).add(x)
+                while st2:
+                    x = st2.pop()
+                    if x in can_escape:
+                        continue
+                    can_escape.add(x)
+                    st2.extend(y for y in rprev.get(x, ()) if y in region)
+                from .mir import Call
+                residuals = [x for x in sorted(can_escape) if fn.term(x)[0] == "call" and str(fn.term(x)[1].get("def", "")).endswith("FromResidual::from_residual")]
+                cands = []
+                for x in residuals:
+                    c = Call(fn, x, fn.term(x))
+                    o = fn.origin(c.args[0], through_calls=("::branch",), at=x)
+                    cands.append((x, o[1] if o[0] == "call" else None))
+                if escapes:
+                    plain = fn.reachable_from(ob, avoid=(set(residuals) | rb) - {ob})
+                    if any(e in plain for e in escapes):
+                        cands.append((None, "plain"))
+                for e, culprit in cands:
+                    if culprit == "plain":
+                        bad.append((e, "return"))
+                        continue
                     if culprit is not None and culprit.name.endswith("get_prepared_by_name"):
                         # frame condition: the same lookup succeeded before the override and nothing reachable from the calls
                         # in between writes Session.prepared
